@@ -191,6 +191,7 @@ SK_DECOMPOSE = {"sig": "fn decompose(base: &[Modulus], value: &mut [u64])",
 MODEL_SIGS = {
     "multiply_many_u64": {"lean": "multiply_many_u64", "params": [("list",), ("mlist",)], "ret": "unit", "monadic": True, "ret_lean": "List Nat", "ns": "GenX"},
     "get_significant_bit_count_uint": {"lean": "get_significant_bit_count_uint", "params": [("list",)], "ret": "usize", "monadic": True, "ret_lean": "Nat", "ns": "GenX"},
+    "right_shift_uint_inplace": {"lean": "right_shift_uint_inplace", "params": [("mlist",), ("w", "usize"), ("w", "usize")], "ret": "unit", "monadic": True, "ret_lean": "List Nat", "ns": "GenX"},
     "divide_uint": {"lean": "divide_uint", "params": [("list",), ("list",), ("mlist",), ("mlist",)], "ret": "unit", "monadic": True, "ret_lean": "List Nat × List Nat", "ns": "GenX"},
 }
 
@@ -208,6 +209,8 @@ def divide_uint (num den quot rem : List Nat) : R (List Nat × List Nat) :=
   if num.length = quot.length ∧ den.length = quot.length ∧ rem.length = quot.length then
     divideUint num den quot.length >>= fun rq => pure (rq.2, rq.1)
   else .error .other
+/-- `util::right_shift_uint_inplace(operand, shift_amount, u64_count)` -/
+def right_shift_uint_inplace (a : List Nat) (s cnt : Nat) : R (List Nat) := rightShiftUint a s cnt
 """
 
 SK_TOTAL = {
@@ -234,10 +237,22 @@ SK_BFV = {
                 },
 }
 
-SPEC = {"ctx_mode": True, "ns": "GenX", "imports": ["Heathcliff.Gen.WordFns"], "opens": ["HC.GenW"], "prelude": PRELUDE,
+SK_CKKS = {
+    "sig": "fn validate_ckks_consts(q: &[Modulus], total: &[u64], puhi: &mut Vec<u64>, uht: &mut Vec<u64>) -> u64",
+    "prologue": "let mut puht: u64 = 0;", "epilogue": "puht",
+    "handles": [CM],
+    "exprs": {CM + ".len()": "q.len()", "c.plain_upper_half_threshold": "puht", "c.plain_upper_half_increment": "puhi", "c.upper_half_threshold": "uht",
+              CM + "[$i].value()": "q[$i].value()", CM + "[$i].reduce(1 << 63)": "q[$i].reduce(1 << 63)", "&%s[$i]" % CM: "&q[$i]"},
+    "effects": {"util::increment_uint(&c.total_coeff_modulus, &c.upper_half_threshold)": "add_uint_u64(total, 1, uht);",
+                "util::right_shift_uint_inplace(&c.upper_half_threshold, 1, $k)": "right_shift_uint_inplace(uht, 1, $k);"},
+}
+
+SPEC = {"ctx_mode": True, "ns": "GenX", "imports": ["Heathcliff.Gen.WordFns", "Heathcliff.Gen.RnsFns"], "opens": ["HC.GenW"], "prelude": PRELUDE,
         "table": [{"file": UR, "fn": "decompose", "impl": "RNSBase", "lean": "rns_decompose", "model": "decomposeW", "skeleton": SK_DECOMPOSE, "register_as": "decompose", "nested_loops": True}],
         "fragments": [
             {"name": "validate_total", "start": r"c \. total_coeff_modulus =|c\.total_coeff_modulus =", "end": r"c\.total_coeff_modulus_bit_count =", "opts": {"skeleton": SK_TOTAL}},
             {"name": "validate_bfv_consts", "arm": r"SchemeType\s*::\s*BFV\s*\|\s*SchemeType\s*::\s*BGV\s*=>\s*\{", "start": r"c\.qualifiers\.using_fast_plain_lift = true ;|c\.qualifiers\.using_fast_plain_lift = true;",
              "opts": {"skeleton": SK_BFV, "nested_loops": True}},
+            {"name": "validate_ckks_consts", "arm": r"SchemeType\s*::\s*CKKS\s*=>\s*\{", "start": r"c\.plain_upper_half_threshold =",
+             "opts": {"skeleton": SK_CKKS}},
         ]}
